@@ -21,6 +21,7 @@ type SpecEnv struct {
 	nextOld Term
 	depth   int
 	iter    *MapIter
+	entry   HeapView // when set: what entry(e) refers to (default: the entry of the function under contract)
 }
 
 func (env *SpecEnv) fail(f string, a ...any) {
@@ -733,6 +734,9 @@ func (env *SpecEnv) call(e *ECall) *Val {
 		// entry(e): value of e when the function under contract was entered
 		n := *env
 		n.cur = entryView{env.st}
+		if env.entry != nil {
+			n.cur = env.entry
+		}
 		return n.eval(e.Args[0])
 	case "len":
 		x := arg(0)
